@@ -489,9 +489,14 @@ def solve_minor_model(
 
                 added: List[Mutation] = []
                 missing: List[Mutation] = []
+                # Loci where this allele already has a mutation (see rule 4 above)
+                occupied = set()
                 for m, mv in VKEEP[allele].items():
                     if not model.getValue(mv[0]):
                         missing.append(m)
+                    else:
+                        occupied.add(m.pos)
+                occupied |= {m.pos for m, mv in VNEW[allele].items() if model.getValue(mv[0])}
                 for m, mv in VNEW[allele].items():
                     if model.getValue(mv[0]):
                         added.append(m)
@@ -503,8 +508,9 @@ def solve_minor_model(
                         # HACK: add homozygous mutation to _all_ alleles
                         # Works only if a mutation is unambiguiusly homozygous;
                         # otherwise, it will fall back to the model defaults
-                        if m not in alleles[allele]:
+                        if m not in alleles[allele] and m.pos not in occupied:
                             added.append(m)
+                            occupied.add(m.pos)
                 solution.append(
                     SolvedAllele(
                         gene,
